@@ -1,9 +1,11 @@
 // C19 harness. Modes (-extra):
-//   child=<query>     one /saveconfig or /deleteconfig request against the real handlers, then exit
-//                     (run under strace by bin/check to record / perturb the syscall sequence)
-//   (default)         sequential histories (TLC-generated) replayed through the handlers and compared
-//                     with the specification's final settings; option<->URL round trips; gated
-//                     concurrent pairs (read(a) read(b) write(a) write(b)) via the verif hook.
+//
+//	child=<query>     one /saveconfig or /deleteconfig request against the real handlers, then exit
+//	                  (run under strace by bin/check to record / perturb the syscall sequence)
+//	(default)         sequential histories (TLC-generated) replayed through the handlers and compared
+//	                  with the specification's final settings; option<->URL round trips; gated
+//	                  concurrent pairs (read(a) read(b) write(a) write(b)) via the verif hook.
+//
 // The settings file lives under $XDG_CONFIG_HOME, which bin/check points into scratch.
 package main
 
@@ -55,9 +57,12 @@ func (s *server) get(path string) (int, string) {
 	return rec.Code, rec.Body.String()
 }
 
-func withServer(f func(s *server)) *vdrv.Result {
+func withServer(f func(s *server)) *vdrv.Result { return withServerArgs(nil, f) }
+
+func withServerArgs(extra []string, f func(s *server)) *vdrv.Result {
 	p := prof()
-	return vdrv.Run(vdrv.Opts{Args: []string{"-functions", "-flat", "-http=localhost:18767", "-no_browser", "src"},
+	args := append([]string{"-functions", "-flat"}, extra...)
+	return vdrv.Run(vdrv.Opts{Args: append(args, "-http=localhost:18767", "-no_browser", "src"),
 		Fetch: func(string) (*profile.Profile, error) { return p.Copy(), nil },
 		HTTP: func(a *plugin.HTTPServerArgs) error {
 			f(&server{a.Handlers})
@@ -254,6 +259,52 @@ func roundTrips() {
 	})
 }
 
+// crossSession: names that differ only in case are different configurations; options that only the command line
+// can set (tagroot, tagleaf) are saved with a configuration and survive sessions that were started without them
+func crossSession() {
+	reset()
+	entry := func(name string) map[string]interface{} {
+		st, _ := readFile()
+		for _, c := range st.Configs {
+			if c["name"] == name {
+				return c
+			}
+		}
+		return nil
+	}
+	withServer(func(s *server) {
+		s.get("/saveconfig?config=cpu&f=foo")
+		s.get("/saveconfig?config=CPU&f=bar")
+		run.Count("case-names")
+		a, b := entry("cpu"), entry("CPU")
+		if a == nil || b == nil || a["focus"] != "foo" || b["focus"] != "bar" {
+			run.Violate("roundtrip", "names-differing-in-case", fmt.Sprintf("after saving cpu (f=foo) and CPU (f=bar): cpu=%v CPU=%v", a, b), "case", nil)
+		}
+		s.get("/deleteconfig?config=CPU")
+		if a := entry("cpu"); a == nil || a["focus"] != "foo" || entry("CPU") != nil {
+			run.Violate("roundtrip", "names-differing-in-case", fmt.Sprintf("after deleting CPU: cpu=%v CPU=%v", entry("cpu"), entry("CPU")), "case", nil)
+		}
+	})
+	withServerArgs([]string{"-tagroot=k", "-tagleaf=j"}, func(s *server) {
+		s.get("/saveconfig?config=withtags&h=hid")
+	})
+	saved := entry("withtags")
+	run.Count("session-only-options")
+	if saved == nil || saved["tagroot"] != "k" || saved["tagleaf"] != "j" {
+		run.Violate("roundtrip", "session-option-not-saved", fmt.Sprintf("saved from a session started with -tagroot=k -tagleaf=j: %v", saved), "tags", nil)
+		return
+	}
+	// a later session without those flags reads the file, shows its menu and saves something else
+	withServer(func(s *server) {
+		s.get("/top")
+		s.get("/saveconfig?config=other&f=x")
+		s.get("/deleteconfig?config=other")
+	})
+	if after := entry("withtags"); after == nil || after["tagroot"] != "k" || after["tagleaf"] != "j" || after["hide"] != "hid" {
+		run.Violate("roundtrip", "saved-option-lost-by-later-session", fmt.Sprintf("configuration withtags was saved with tagroot=k tagleaf=j hide=hid; after another session saved and deleted a different configuration it is %v", after), "tags", nil)
+	}
+}
+
 func isDefault(k, v string) bool {
 	d := map[string]string{"trim": "t", "n": "-1", "nf": "0.005", "ef": "0.001", "unit": "minimum", "sort": "flat", "calltree": "f", "dropneg": "f", "rel": "f", "compact": "f",
 		"intel": "f", "mean": "f", "noinlines": "f", "showcolumns": "f", "g": ""}
@@ -366,6 +417,7 @@ func main() {
 		}
 	})
 	roundTrips()
+	crossSession()
 	concurrentPairs()
 	run.Finish("sequential histories = every commit order of up to 3 save/delete requests reachable in Settings.tla (rename+lock design), replayed through the real /saveconfig and /deleteconfig handlers and compared with the specification's final settings value; option<->URL: 32 parameter values x 3 combinations saved, read back from the page's config menu and compared; re-save and delete isolation; 4 request pairs forced through read(a) read(b) write(a) write(b) with the verif gate; non-trivial = distinct history / parameter / pair")
 }
